@@ -1814,6 +1814,12 @@ impl<'a, E: quiver_core::effects::Effect> Compiler<'a, E> {
             };
 
             if let Some(scope) = self.scopes.last_mut() {
+                // A new binding of this name replaces the old variable: narrowings recorded for
+                // the old one (keyed by name) do not describe the new value.
+                scope.narrowings.variables.remove(variable_name);
+                scope.narrowings.fields.retain(|(parent, _, _)| {
+                    !provenance_rooted_at_variable(parent, variable_name)
+                });
                 scope.bindings.insert(
                     variable_name.clone(),
                     Binding::Variable {
@@ -4658,6 +4664,15 @@ impl<'a, E: quiver_core::effects::Effect> Compiler<'a, E> {
             }
         };
         self.compile_accessor(last_type, accessors, target, base_prov)
+    }
+}
+
+/// Whether a provenance is (a field path of) the named variable.
+fn provenance_rooted_at_variable(provenance: &Provenance, name: &str) -> bool {
+    match provenance {
+        Provenance::Variable(v) => v == name,
+        Provenance::Field(parent, _) => provenance_rooted_at_variable(parent, name),
+        _ => false,
     }
 }
 
